@@ -544,3 +544,74 @@ def path_to(via, fid):
         cur = p[0] if p else None
         n += 1
     return list(reversed(out))
+
+
+# ------------------------------------------------------------------ A7 error taint
+def error_taint(fn, sources, sanitizers, clean_variants=("Ok", "Continue", "Some")):
+    """Forward taint of error values.  `sources`: locals holding a Result whose Err payload is
+    tainted.  A call whose callee name is in `sanitizers` produces a clean value whatever it
+    consumes.  Projections through the variants in `clean_variants` are clean.  Returns the list of
+    (bb, stmt-or-term) that write a tainted value into the return place."""
+    tainted = set(sources)
+    changed = True
+
+    def place_tainted(p):
+        if p[0] not in tainted:
+            return False
+        for e in p[1]:
+            if isinstance(e, list) and e[0] == "as" and e[1] in clean_variants:
+                return False
+        return True
+
+    def op_tainted(o):
+        p = op_place(o)
+        return p is not None and place_tainted(p)
+
+    while changed:
+        changed = False
+        for b, i, s in fn.assigns():
+            lhs = s["lhs"]
+            rv = s["rv"]
+            k = rv["k"]
+            t = False
+            if k in ("use", "cast"):
+                t = op_tainted(rv["op"])
+            elif k == "agg":
+                t = any(op_tainted(x) for x in rv["f"])
+            elif k in ("ref", "rawptr"):
+                t = place_tainted(rv["p"])
+            if t and lhs[0] not in tainted and lhs[0] != 0:
+                tainted.add(lhs[0])
+                changed = True
+        for b, t in fn.calls():
+            if "dest" not in t:
+                continue
+            name = t.get("callee", "").rsplit("::", 1)[-1]
+            if name in sanitizers:
+                continue
+            if any(op_tainted(a) for a in t["args"]):
+                d = t["dest"][0]
+                if d not in tainted and d != 0:
+                    tainted.add(d)
+                    changed = True
+    out = []
+    for d in fn.defs.get(0, []):
+        if d[0] == "call":
+            t = d[2]
+            name = t.get("callee", "").rsplit("::", 1)[-1]
+            if name in sanitizers:
+                continue
+            if any(op_tainted(a) for a in t["args"]):
+                out.append((d[1], t))
+        else:
+            rv = d[3]["rv"]
+            k = rv["k"]
+            t = False
+            if k in ("use", "cast"):
+                t = op_tainted(rv["op"])
+            elif k == "agg":
+                t = any(op_tainted(x) for x in rv["f"])
+            if t:
+                out.append((d[1], d[3]))
+    # a source assigned directly into _0 by the call itself
+    return out, tainted
